@@ -98,6 +98,12 @@ theorem c01_memo_invariant (env : Env) (hwf : WF2 env = true) (h : Heap) :
       obtain ⟨ht, hc'⟩ := walkReg_coherent env h steps tgt r hc
       obtain ⟨h1, h2⟩ := ih _ hc' hw.2
       exact ⟨h1, by rw [h2, ht]⟩
+    | probe tgt =>
+      simp only [wfEvents] at hw
+      simp only [histReg, histTable]
+      obtain ⟨ht, hc'⟩ := probe_coherent r env.k.ct (tgt.clsName h) hc
+      obtain ⟨h1, h2⟩ := ih _ hc' hw
+      exact ⟨h1, by rw [h2, ht]⟩
 
 /-- **Histories.** For every sequence of `register` / `glom` calls on one
     registry that starts coherent (a fresh one does), every `glom` call returns
@@ -124,6 +130,11 @@ theorem c01_history_refines (env : Env) (hwf : WF2 env = true) (h : Heap) :
       obtain ⟨ht, hc'⟩ := walkReg_coherent env h steps tgt r hc
       simp only
       rw [ih _ hc' hw.2, ht]
+    | probe tgt =>
+      simp only [wfEvents] at hw
+      simp only [runHistory, refHistory]
+      obtain ⟨ht, hc'⟩ := probe_coherent r env.k.ct (tgt.clsName h) hc
+      rw [ih _ hc' hw, ht]
 
 /-- Success returns the object reached by applying the segments left to right. -/
 theorem c01_ok_iff_reaches (env : Env) (hwf : WF2 env = true) (r : Reg)
@@ -354,6 +365,14 @@ theorem c01_model_checks (env : Env) (hwf : WF2 env = true) (h : Heap) :
       · have := ih _ hc' hw.2 (by rw [ht]; exact hd.2)
         simp only [checkC01h, ht] at this
         exact this
+    | probe tgt =>
+      simp only [wfEvents] at hw
+      simp only [refHistory] at hd
+      simp only [checkC01h, runHistory, refHistory]
+      obtain ⟨ht, hc'⟩ := probe_coherent r env.k.ct (tgt.clsName h) hc
+      have := ih _ hc' hw (by rw [ht]; exact hd)
+      simp only [checkC01h, ht] at this
+      exact this
 
 /-! ### the extended access kernel (`int()`, class-level behaviour) -/
 
@@ -505,6 +524,12 @@ example :
     r.coherent exEnv.k.ct = false ∧
     (r.getHandler exEnv.k.ct "Row").1 = some .getattr ∧
     r.tbl.nearest exEnv.k.ct "Row" = some (.table "_tab") := by decide
+/-- a `False` remembered by a raise_exc=False lookup is coherent, and the next plain segment
+    on that type still ends in UnregisteredTarget (not in a call of `False`) -/
+example :
+    let r := (defaultReg.register "Rec" (some .off) false).probe exEnv.k.ct "Row"
+    r.cache = [("Row", .off)] ∧ r.coherent exEnv.k.ct = true ∧
+    (r.getHandler exEnv.k.ct "Row").1 = none := by decide
 /-- … while `register` as it is re-establishes it -/
 example : (warmReg.register "Rec" (some (.table "_tab")) false).coherent exEnv.k.ct = true := by decide
 
